@@ -132,7 +132,7 @@ PROPS = {
         "traced_too": True,
         'coq': 'Properties/C11.v',
         'streams': ['loop', 'apiorder'],
-        'level_text': "C11_set_program_refuses / C11_update_field_refuses / C11_set_program_succeeds / C11_set_program_accepts: a command succeeds iff the program is known and every field is controllable; refusal transmits nothing, success transmits exactly one message with the flow id, the program's uid and the pairs in order.",
+        'level_text': "C11_set_program_refuses / C11_update_field_refuses / C11_set_program_succeeds / C11_set_program_accepts / C11_update_field_succeeds / C11_update_field_accepts / C11_update_field_too_many: a command succeeds iff the program is known and every field is controllable (an update also: at most 255 fields, the message counts them in 8 bits); refusal transmits nothing, success transmits exactly one message with the flow id, the program's uid and the pairs in order.",
         'level_note': 'Coq kernel; no axioms; hand-written model of run_inner (src/run.rs), Datapath/Report (src/lib.rs) and Backend::next, with user callbacks and send failures as arbitrary oracles; tied to the code by running RunBuilder::run inline over a scripted Ipc with recording algorithms on the same histories (model and implementation logs compared after sorting hash-ordered DROP/INSTALL batches and renaming uids through the install messages). Assumes handles are used only inside the three callbacks.',
         'rule': 'structured random histories over 3 addresses x 4 flow ids: ready / create (9 algorithm names incl. prefixes, extensions, empty, 63 bytes) / measurement for live and dead flows / close / unknown, 1-4 messages per datagram (occasionally 10-14, exceeding the 1024-byte buffer), restarts, re-creates, receive errors, stop requests; 0-3 additional algorithms with duplicate names and absent instances, 6 table programs incl. a duplicate name and an uncompilable one; callbacks issue set_program/update_field/get_field lists; non-trivial = both an accepted and a refused command in the history',
         'assumptions': ["a flow's datapath handle is used only inside new_flow / on_report / close (not from Drop, not smuggled out)", 'program uids are canonicalised through the install messages; DROP and INSTALL batches are sorted before comparison (HashMap order)'],
